@@ -321,8 +321,20 @@ def fams_fingerprint(canon):
 _KEY_CACHE = {}
 
 
+class CorruptKey:
+    """a key read from a store file THE LIBRARY WROTE that is not the canonical JSON text of [str, str, {str: str}, str]:
+    an observation about the real code (reported by the oracles as `…:store-file-corrupt`), never an Infra error"""
+
+    def __init__(self, raw):
+        self.raw = raw
+
+    def __repr__(self):
+        return 'CorruptKey(%r)' % (self.raw,)
+
+
 def parse_key(key):
-    """trusted json round trip, validated on every distinct key: -> (metric, name, sorted label pairs, help)"""
+    """json round trip (trusted for well-formed keys), validated on every distinct key:
+    -> (metric, name, sorted label pairs, help) | CorruptKey"""
     hit = _KEY_CACHE.get(key)
     if hit is not None:
         return hit
@@ -341,8 +353,20 @@ def _parse_key(key):
     except Exception:
         ok = False
     if not ok:
-        raise lib.Infra('store key %r is not a [str, str, {str: str}, str] JSON text in canonical spelling' % (key,))
+        return CorruptKey(key)
     return metric, name, sorted(labels.items()), help_text
+
+
+def corrupt_keys(snap):
+    """[(basename, entry index, raw key text)] for the entries of a snapshot whose key does not decode"""
+    out = []
+    for bn, entries in sorted(snap.items()):
+        if isinstance(entries, Unreadable):
+            continue
+        for j, e in enumerate(entries):
+            if isinstance(parse_key(e[0]), CorruptKey):
+                out.append((bn, j, e[0]))
+    return out
 
 
 def key_tokens(metric, name, pairs, help_text):
@@ -360,7 +384,10 @@ def merge_request(files):
     for bn, typ, mode, pid, entries in files:
         ftoks += [lib.hx(bn), lib.hx(typ), lib.hx(mode), lib.hx(str(pid)), str(len(entries))]
         for key, value, ts in entries:
-            metric, name, pairs, help_text = parse_key(key)
+            parsed = parse_key(key)
+            if isinstance(parsed, CorruptKey):
+                return None     # not encodable for the driver: the caller reports the corrupt file and skips the comparison
+            metric, name, pairs, help_text = parsed
             for k, v in pairs:
                 if k == 'le':
                     try:
@@ -503,7 +530,11 @@ def canon_snapshot(snap):
     for bn, entries in snap.items():
         es = []
         for key, v, ts in entries:
-            metric, name, pairs, help_text = parse_key(key)
+            parsed = parse_key(key)
+            if isinstance(parsed, CorruptKey):
+                es.append((('?corrupt-key', key, (), ''), v, ts))
+                continue
+            metric, name, pairs, help_text = parsed
             es.append(((metric, name, tuple(pairs), help_text), v, ts))
         out[bn] = es
     return out
